@@ -250,6 +250,48 @@ class E2:
         return ""
 
     # ------------------------------------------------------------------ driver
+    def rebinds(self, f, _stack=None):
+        """Names of the fields that method ``f`` may rebind (`self.x = ...`), transitively through the
+        self-/super-method calls it makes; "*" when that cannot be bounded."""
+        cache = self.__dict__.setdefault("_rebinds", {})
+        if f.qual in cache:
+            return cache[f.qual]
+        stack = _stack or set()
+        if f.qual in stack:
+            return set()
+        stack = stack | {f.qual}
+        out = set()
+        for n in ast.walk(f.node):
+            tgts = []
+            if isinstance(n, ast.Assign):
+                tgts = n.targets
+            elif isinstance(n, (ast.AugAssign, ast.AnnAssign)):
+                tgts = [n.target]
+            elif isinstance(n, ast.Delete):
+                tgts = n.targets
+            for t in tgts:
+                for leaf in ([t] if not isinstance(t, (ast.Tuple, ast.List)) else list(ast.walk(t))):
+                    if isinstance(leaf, ast.Attribute) and isinstance(leaf.value, ast.Name) and leaf.value.id in ("self", "cls"):
+                        out.add(leaf.attr)
+            if isinstance(n, ast.Call) and norm(n.func) in ("setattr", "object.__setattr__"):
+                out.add("*")
+            if isinstance(n, ast.Call) and isinstance(n.func, ast.Attribute):
+                base = n.func.value
+                is_self = isinstance(base, ast.Name) and base.id in ("self", "cls")
+                is_super = isinstance(base, ast.Call) and norm(base.func) == "super"
+                if (is_self or is_super) and f.cls:
+                    hit = False
+                    for k in self.repo.subclasses(f.cls) or [f.cls]:
+                        g = self.repo.resolve_method(k, n.func.attr, start_after=f.cls) if is_super else \
+                            self.repo.resolve_method(k, n.func.attr)
+                        if g is not None:
+                            hit = True
+                            out |= self.rebinds(g, stack)
+                    if not hit and is_self:
+                        pass   # an attribute holding a callable: cannot rebind fields of self by itself
+        cache[f.qual] = out
+        return out
+
     def run(self, max_rounds=25):
         while self.changed and self.rounds < max_rounds:
             self.changed = False
@@ -817,8 +859,11 @@ class Interp:
                             continue
                         bound = [recv] + args if mf.is_method else args
                         out = out.join(self.instantiate(mf, bound, kws, e, starkw))
-                    # a method call may overwrite fields
-                    for k in [k for k in self.env if k.startswith("self.")]:
+                    # a method call may rebind fields: forget exactly those the callees (transitively) assign
+                    mod = set()
+                    for mf in cands:
+                        mod |= self.eng.rebinds(mf)
+                    for k in [k for k in self.env if k.startswith("self.") and ("*" in mod or k[5:] in mod)]:
                         del self.env[k]
                     return out
                 fav = self.ev_Attribute(fn)
@@ -1224,7 +1269,35 @@ class Interp:
         cache[self.f.qual] = cd
         return cd
 
+    def _table_lookup_values(self, value):
+        """Exact abstract values of `TABLE[key]...` over a module-level literal table (possibly through an
+        accessor function and a selector): one value node per key, evaluated and joined -- so that
+        `cache = TABLES[method].cache` is one of the cache objects themselves, not "something inside
+        the table"."""
+        from gridlint import e4
+        info = self.eng.__dict__.setdefault("_modtables", {})
+        if self.f.module not in info:
+            mi = self.mod
+            funcs = {g.name: g.node for g in self.repo.funcs.values()
+                     if g.module == self.f.module and g.cls is None and not g.is_lambda and isinstance(g.node, ast.FunctionDef)}
+            classes = {c_.name: c_ for c_ in mi.tree.body if isinstance(c_, ast.ClassDef)}
+            info[self.f.module] = (funcs, classes)
+        funcs, classes = info[self.f.module]
+        if not any(isinstance(n, ast.Name) and (n.id in funcs or n.id in self.mod.globals) for n in ast.walk(value)):
+            return None
+        return e4.module_table_lookup(value, self.mod.globals, funcs, classes)
+
     def st_Assign(self, s):
+        sel = self._table_lookup_values(s.value) if isinstance(s.value, (ast.Subscript, ast.Attribute, ast.Call)) else None
+        if sel:
+            self.ev(s.value)    # effects / sinks of the expression itself
+            for t in s.targets:
+                if isinstance(t, (ast.Tuple, ast.List)) and all(isinstance(x, ast.Tuple) and len(x.elts) == len(t.elts) for x in sel):
+                    for i, tt in enumerate(t.elts):
+                        self.bind(tt, joinall(self.ev(x.elts[i]) for x in sel), s)
+                else:
+                    self.bind(t, joinall(self.ev(x) for x in sel), s)
+            return
         v = self.ev(s.value)
         if len(s.targets) == 1 and isinstance(s.targets[0], ast.Name) and \
                 self._const_displays().get(s.targets[0].id) is s:
